@@ -208,6 +208,9 @@ func GenScript(r *hx.Rand, maxRoutes int) []RegT {
 			}
 		}
 		g.Cons = genCons(r, segs)
+		if r.Chance(1, 150) && len(segs) > 0 && segs[len(segs)-1] != "*" {
+			g.Path += " " // trailing white space: in the vocabulary, trimmed by CompileRoute only (K11f)
+		}
 		script = append(script, g)
 	}
 	return script
